@@ -143,7 +143,8 @@ pub fn gen_config(rng: &mut Rng, profile: Profile) -> Config {
             hasher: HashMode::Mix(rng.below(1000)),
             density: if rng.chance(1, 2) { Density::Every } else { Density::Sparse },
             keys,
-            initial_capacity: None,
+            // (an initial capacity must not show: here the popularity table grows beyond its minimum size)
+            initial_capacity: if rng.chance(1, 3) { Some(rng.below(200) as usize) } else { None },
         };
     }
     let keys = match profile {
